@@ -87,6 +87,23 @@ def FRel (st : FcgiSt) (s : Bytes × Bool) : Prop := st.stream = s.1 ∧ st.body
 
 theorem hdrSize_pos : 0 < Gen.hdrSize := by decide
 
+theorem be16_lt (b : Bytes) (off : Nat) : be16 b off < 65536 := by
+  unfold be16
+  have h1 := (b.getD off 0).toNat_lt
+  have h2 := (b.getD (off + 1) 0).toNat_lt
+  omega
+
+/-- the record size is computed without wrap-around in the declared type of `rec_size` (both paths) -/
+theorem recSize_parse (hb : Bytes) :
+    Gen.fcgiRecSizeAsync (parseFcgiHdr hb).contentLength (parseFcgiHdr hb).paddingLength =
+      (parseFcgiHdr hb).contentLength + (parseFcgiHdr hb).paddingLength ∧
+    Gen.fcgiRecSizeCached (parseFcgiHdr hb).contentLength (parseFcgiHdr hb).paddingLength =
+      (parseFcgiHdr hb).contentLength + (parseFcgiHdr hb).paddingLength := by
+  have h1 : (parseFcgiHdr hb).contentLength < 65536 := be16_lt _ _
+  have h2 : (parseFcgiHdr hb).paddingLength < 256 := (hb.getD Gen.hdrOff_padding_length 0).toNat_lt
+  unfold Gen.fcgiRecSizeAsync Gen.fcgiRecSizeCached
+  constructor <;> (apply Nat.mod_eq_of_lt; omega)
+
 theorem fcgiReadRecord_sim (st : FcgiSt) (s : Bytes × Bool) (body : Bytes) (hrel : FRel st s) :
     (fcgiReadRecord st body).1 = (fcgiReadRecordF s body).1 ∧
     FRel (fcgiReadRecord st body).2 (fcgiReadRecordF s body).2 := by
@@ -104,7 +121,11 @@ theorem fcgiReadRecord_sim (st : FcgiSt) (s : Bytes × Bool) (body : Bytes) (hre
       obtain ⟨hr1, hst1⟩ := h1
       subst hr1
       simp only [hnlt, if_false]
+      rw [(recSize_parse (s.1.take Gen.hdrSize)).1]
       generalize hh : parseFcgiHdr (s.1.take Gen.hdrSize) = h
+      have hpl : ¬ (h.contentLength + h.paddingLength < h.paddingLength) := by omega
+      have hsub : h.contentLength + h.paddingLength - h.paddingLength = h.contentLength := by omega
+      simp only [hpl, if_false, hsub]
       by_cases hz : h.contentLength + h.paddingLength = 0
       · have : (h.contentLength + h.paddingLength == 0) = true := by rw [hz]; rfl
         simp only [this, if_true]
